@@ -466,7 +466,7 @@ func cmdCheck(id, tier string) int {
 		if strings.HasPrefix(c.V.Msg, "uncaught panic") && c.Native.End == "panic" {
 			confirmed = true
 		}
-		if strings.HasPrefix(c.V.Msg, "frame[") || strings.HasPrefix(c.V.Msg, "deadlock") {
+		if strings.HasPrefix(c.V.Msg, "frame[") {
 			// engine-level observation; the native harness carries its own check
 			for _, f := range c.Native.Failures {
 				if strings.HasPrefix(f, "native:") {
